@@ -119,6 +119,23 @@ theorem widened_upper (u s mx nrm : Rat) (hn : 0 < nrm) (hs : 0 ≤ s) (hsm : s 
   have := Rat.mul_le_mul_of_nonneg_right h1 hinv
   grind
 
+/-! ### rows read only the columns they mention -/
+
+theorem eval_congr (r : Row) (x y : Vec) (h : ∀ q ∈ r.coeffs, x q.1 = y q.1) : r.eval x = r.eval y := by
+  unfold Row.eval
+  congr 1
+  apply List.map_congr_left
+  intro q hq
+  rw [h q hq]
+
+theorem sat_congr (r : Row) (x y : Vec) (h : ∀ q ∈ r.coeffs, x q.1 = y q.1) : r.Sat x ↔ r.Sat y := by
+  unfold Row.Sat
+  rw [eval_congr r x y h]
+
+theorem scaleRhs_sat_congr (k : Rat) (r : Row) (x y : Vec) (h : ∀ q ∈ r.coeffs, x q.1 = y q.1) :
+    (scaleRhs k r).Sat x ↔ (scaleRhs k r).Sat y :=
+  sat_congr (scaleRhs k r) x y h
+
 /-! ### dispatch variables -/
 
 theorem mem_dispVars (M : List MapRow) (d : Nat) :
